@@ -249,27 +249,42 @@ def flat_pc(pc: List[Term]) -> List[Term]:
     from .interp import neg
 
     out: List[Term] = []
+    have: set = set()
 
-    def add(g: Term) -> None:
+    def add(g: Term) -> bool:
         if isinstance(g, tuple) and g and g[0] == "and":
+            ch = False
             for x in g[1:]:
-                add(x)
-        elif g not in out:
-            out.append(g)
+                ch = add(x) or ch
+            return ch
+        if g in have:
+            return False
+        have.add(g)
+        out.append(g)
+        return True
 
     for g in pc:
         add(g)
+    ors = [g for g in out if isinstance(g, tuple) and g and g[0] == "or" and len(g) <= 9]
+    if not ors:
+        return out
+    negs: Dict[Any, Any] = {}
+
+    def ng(d: Term) -> Term:
+        r = negs.get(d)
+        if r is None:
+            r = negs[d] = neg(d)
+        return r
+
     for _ in range(6):
         changed = False
-        for g in list(out):
-            if isinstance(g, tuple) and g and g[0] == "or":
-                live = [d for d in g[1:] if neg(d) not in out and not (isinstance(d, tuple) and d[:1] == ("and",) and any(neg(x) in out for x in d[1:]))]
-                if len(live) == 1 and live[0] not in out:
-                    n0 = len(out)
-                    add(live[0])
-                    changed = changed or len(out) != n0
+        for g in ors:
+            live = [d for d in g[1:] if ng(d) not in have and not (isinstance(d, tuple) and d[:1] == ("and",) and len(d) <= 9 and any(ng(x) in have for x in d[1:]))]
+            if len(live) == 1 and add(live[0]):
+                changed = True
         if not changed:
             break
+        ors = [g for g in out if isinstance(g, tuple) and g and g[0] == "or" and len(g) <= 9]
     return out
 
 
